@@ -97,10 +97,10 @@ CHECKS = {
          "Timing is sampled, not controlled; bounded time is the property, judged with a 10 s margin. Requests that were sent but whose handler had not started at the signal (still in the listen backlog or queued) are not required to be answered. Both runtimes: threaded (Receiver) and tokio (CancellationToken; the runtime is kept alive after run returns so in-flight tasks can finish).",
          "DESIGN.md §5 C20"),
  "C08": ("exploration",
-         "stateful proptest generation of pool scenarios (workers, tasks with panic flags, lifecycle) run on the real scheduler with generated delays; history invariants over start/finish records, witness batch, thread-exit guards",
-         "Scenarios of 1..8 workers, up to 12 tasks each with a panic flag and a busy time, an optional witness batch of N tasks that each wait for the other N-1 to have started, a second round of tasks (a restarted worker panicking again), ended by stop()+drop or by drop alone. Invariants: every submitted task starts exactly once and, unless it panics, finishes exactly once; tasks queued before or after a panic still run; the witness completes (the pool is back to N usable workers); never more than N tasks between start and finish; stop/drop return within 10 s; afterwards every worker thread that ran a task exits (observed through thread-local exit guards).",
-         "Stress mode: interleavings are those the OS scheduler produces plus generated submission gaps; a race can be missed but not falsely reported. (A controlled-scheduler mode through the H-pool shim is planned; see DESIGN.md §3.)",
-         "DESIGN.md §5 C08"),
+         "schedule exploration owned by the harness: lifecycle scripts x panic placements x schedules, through a cfg-gated scheduling shim (token-passing scheduler under Mutex / mpsc / thread in thread/pool.rs and thread/recovery.rs); every schedule within a delay bound is enumerated (stateless DFS), pre-emption-bounded and proptest-generated random schedules beyond it; plus stateful proptest scenarios on the real OS scheduler (stress mode). Oracle: history invariants over start/finish records, witness batch, deadlock detection, final thread table",
+         "Schedule mode (decides the interleaving-dependent part): a case is a (lifecycle script, schedule) pair. Scripts: start, k tasks with every panic placement, optionally wait-all / witness batch / a further panicking task (a restarted worker panicking again), optionally stop, then drop; N in 1..3, k up to 4; random scripts add restarts of a stopped pool and N = 4. Schedules: quick enumerates ALL schedules with at most 1 deviation from the default scheduler for all 738 scripts and at most 2 deviations for the 108 scripts with N <= 2, k <= 2, samples the pre-emption-bound-2 space (random frontier, 100 per script) and runs 1600 random (script, choice-vector) pairs; thorough raises the bounds (2 deviations for every script, 3 for the small ones, capped per script; 60 000 random). Every execution is checked at quiescence: each submitted task started exactly once and, unless it panics, finished exactly once (queued tasks survive stop/drop); at most N tasks between start and finish; the witness batch (N tasks that each wait for all N) completes, i.e. the pool is back to N usable workers after panics; the caller never blocks forever (a state with no runnable thread is reported as a deadlock, attributed to the script step) and never panics; every worker thread has exited. Stress mode (real scheduler): scenarios of 1..8 workers, up to 12 tasks with panic flags and busy times, witness, second round, early stop/drop with queued tasks; same invariants with 10 s limits and thread-local exit guards.",
+         "Scheduling points are the shim's operations (lock, send, recv, spawn, join, thread exit, plus one yield inside each task); reorderings below that granularity (memory model) are not explored. Bounded: the enumerated spaces are those named above; larger scripts and deeper schedules are sampled, not exhausted. The detached recovery thread may stay blocked forever (it is not a worker). If thread/pool.rs is changed to use std items the shim does not wrap, ./check falls back to a build without the shim and only stress mode runs (said in the evidence file).",
+         "DESIGN.md §5 C08, §3, §10"),
  "C14": ("exploration",
          "program generation: the harness writes Rust programs (type declarations via derive and json_map!, random values, json! literals from the JSON grammar), compiles them against the working tree and checks each case against a harness-side reference serialiser (round trip + documented shape + differential with Value::parse)",
          "Per batch ~40 generated type declarations (named structs 1..8 fields, tuple structs 1..6 fields, unit-variant enums 1..8 variants; #[derive(FromJson, IntoJson)] and json_map!; fields over bool / all integer widths / f64 / String / Option<T> / Vec<T> / earlier generated types; #[rename] strings with spaces, quotes, backslashes, non-ASCII, empty and JSON-special characters) with several random values each, and ~300 json! literals (null / arrays / objects / Rust expressions and variables in every position, variable keys, trailing commas, depth <= 6). One cargo build evaluates the whole batch; each case checks to_json == documented shape (member order included), from_json(to_json(v)) == v, from_str(to_string(v)) == v; each literal == its constructor-built value == Value::parse(equivalent text). A batch that fails to compile is bisected down to the offending case.",
@@ -138,8 +138,8 @@ def main():
         "version": 1,
         "setup_cmd": "./setup.sh",
         "hooks": {
-            "guard": "--cfg humphrey_verif",
-            "enable": "RUSTFLAGS=\"--cfg humphrey_verif\" (set in /verif/harness/.cargo/config.toml; exported for cargo fuzz)",
+            "guard": "--cfg humphrey_verif (all hook code) plus --cfg humphrey_verif_shim (switches the use lines of thread/pool.rs and thread/recovery.rs to the scheduling shim)",
+            "enable": "rustflags = [\"--cfg\", \"humphrey_verif\", \"--cfg\", \"humphrey_verif_shim\"] in /verif/harness/.cargo/config.toml (hvt: humphrey_verif only); ./check falls back to humphrey_verif alone if the pool no longer builds against the shim",
             "baseline_off_cmd": "cd /repo && cargo test --workspace --no-fail-fast --offline",
             "source_commits": hooks,
             "add_only": True,
